@@ -382,3 +382,28 @@ def proof_stage(res, pid, extra_targets=(), thorough_checker=True):
         if not okc:
             return False, outc
     return True, out
+
+
+def regen_consts104():
+    """translator tie: translate/consts104.c is compiled against the CURRENT cs104_slave.c (it #includes it) and run;
+    its output replaces lean/Iec/Gen/Consts104.lean when it changed; Iec.Props.C06 / C13 / C03 / C10 prove that the
+    constants are the ones the models use"""
+    bdir = os.path.join(BUILD, "_gen")
+    os.makedirs(bdir, exist_ok=True)
+    lib = build_lib()
+    exe = os.path.join(bdir, "consts104")
+    cmd = ["gcc"] + SAN + ["-I" + os.path.join(SRC, "iec60870/cs104")] + INCLUDES + [os.path.join(ROOT, "translate", "consts104.c")]
+    cmd += [o for s_, o in lib.items() if s_ != "iec60870/cs104/cs104_slave.c" and s_ not in REAL_HAL] + [os.path.join(ROOT, "harness", "simhal.c")]
+    cmd += ["-o", exe, "-lpthread", "-lm"]
+    rc, out = sh(cmd, timeout=600)
+    if rc != 0:
+        raise BuildError("translate/consts104.c does not compile against the current cs104_slave.c: " + out[-800:])
+    rc, out = sh([exe], timeout=60)
+    if rc != 0 or "namespace Iec.Gen" not in out:
+        raise BuildError("translate/consts104 failed: " + out[-400:])
+    out = out[out.index("/- GENERATED"):]
+    dst = os.path.join(LEAN, "Iec", "Gen", "Consts104.lean")
+    if not os.path.exists(dst) or open(dst).read() != out:
+        with open(dst + ".new", "w") as f:
+            f.write(out)
+        os.replace(dst + ".new", dst)
